@@ -31,7 +31,7 @@ def run(ctx):
         two = ctx.tlc_gen("ref", "RefStore_Gen", consts={"Plan": 2}, timeout=3000)
         two = [c for c in two if c["verdict"] != "err" and c["nsteps"] > 1]
         two.sort(key=lambda c: json.dumps(c, sort_keys=True))
-        cases = ctx.rng.sample(cases, 900) + ctx.rng.sample(two, 600)
+        cases = ctx.rng.sample(cases, 400) + ctx.rng.sample(two, 250)
     else:
         # stratified by number of model steps so that multi-step commits (packed rewrite + unlink) are present
         by = {}
@@ -89,7 +89,7 @@ def run(ctx):
     ctx.cov["crash_points_executed"] = points
     ctx.sample({"transaction": {k: cases[0][k] for k in ("loose", "packed", "mode", "edits")}, "crash_points": results[0].get("got", {}).get("points")})
     ctx.cov["rule"] = ("Transactions the model commits (stratified seeded sample of RefStore_Gen by model step count x mode x op; "
-                       "thorough: 1500 incl. 600 two-edit ones) x every mutation point 1..N found by a dry run. One evaluation = one "
+                       "thorough: 650 incl. 250 two-edit ones) x every mutation point 1..N found by a dry run. One evaluation = one "
                        "transaction; non-trivial/distinct = each (transaction, crash point) pair actually executed.")
     ctx.assumptions += ["process death only between libc-level mutations; no torn writes, no lost un-synced data"]
 
